@@ -141,7 +141,11 @@ def run(ctx):
                 "padded/unpadded produced by the real obfuscate: %s; all truncations (prefixes and dropped fronts%s), extensions by "
                 "1..32 bytes x 3 contents, whole-field overwrites, random corruptions of one or two fields, 4 foreign keys, 3 foreign "
                 "methods; arbitrary byte strings of %s for all 4 methods; every input goes through deobfuscate and a live Session's "
-                "recvDataFromRemote, a valid frame must be readable afterwards; distinct = (message class, concrete modification)"
+                "recvDataFromRemote, a valid frame must be readable afterwards; finally the garbage classes (every length 0..30 incl. the empty "
+                "message, header-only, random / zero bytes up to the wire limit, tampered valid frames, empty TLS records, websocket text / "
+                "ping / empty-binary messages) are delivered through real connection objects (net.Pipe, common.TLSConn, "
+                "common.WebSocketConn over loopback) into a live Session via AddConnection/deplex for all 4 methods, and after every item a "
+                "valid frame on the same connection must reach its reader; distinct = (message class, concrete modification)"
                 % (len(cases), "every bit of every byte" if not q else "every bit of the 14 header bytes, of the first 32 payload bytes, "
                    "of the last 16 bytes, around the payload/pad border and of 400 random positions (all positions for messages <= 600 bytes)",
                    "" if not q else "; sampled for the Max-size message", "every length 0..20480 x 2 contents" if not q else
